@@ -9,7 +9,7 @@ def sh(cmd, cwd=None):
     return p.returncode, p.stdout + p.stderr
 total = alarms = 0
 for d in sys.argv[1:]:
-    for pd in sorted(glob.glob(d + "/*/patch.diff")):
+    for pd in sorted(glob.glob(d + "/*/patch.diff")) + sorted(glob.glob(d + "/patch.diff")):
         total += 1
         rc, out = sh(f"git -C /repo apply {pd}")
         if rc != 0:
